@@ -1,4 +1,5 @@
 import GoSSE.Proofs.ClientConnect
+import GoSSE.Proofs.GenEquivReset
 import GoSSE.Props.C01
 import GoSSE.Props.C20
 /-!
@@ -280,5 +281,34 @@ theorem body_per_attempt (cfg : Cfg) (fl : Floats) (h : List Attempt) (c : Conn)
         refine ⟨hst.2, ih (i + 1) ?_⟩
         rw [hcn]; exact hst.1)
   exact key h c (Ctl.new cfg t0) done0 0 ⟨fun _ => ⟨hc, rfl, hg⟩, (by intro h; omega)⟩
+
+/-! ### The translated source text (regenerated from /repo's client_connection.go on every run) -/
+
+/-- **`Connection.resetRequest` and `resetRequestBody` as translated** — what every (re)connection attempt does to the
+request before it is sent. On `GoRT.HttpReq` (the request's body, its `GetBody` as the answers of its successive calls,
+its header map with any other headers `rest`) the translated code is the model's `resetRequest`: nothing but `isRetry`
+changes before the first attempt; afterwards a body other than nil / `http.NoBody` is re-obtained through `GetBody`
+(`ErrNoGetBody` when there is none, `GetBody`'s own error otherwise — and then neither body nor header is touched), and
+the `Last-Event-ID` header is set to the connection's last event ID or removed when that is empty; it does not panic.
+The header / body theorems above are stated over that model function, so they are statements about the source text of
+these two functions (the `Connect` loop that calls them stays with the hand model and the CONN correspondence). -/
+theorem translated_resetRequest_is_model (fuel : Nat) (rest : List (Bytes × List Bytes))
+    (hrest : ∀ e ∈ rest, e.1 ≠ GenEquiv.leidKey) (c : Conn) :
+    Gen.Connection_resetRequest fuel (GenEquiv.gOf rest c) =
+      .ok (GenEquiv.resetErrS (resetRequest c).2, GenEquiv.gOf rest (resetRequest c).1) :=
+  GenEquiv.resetRequest_eq fuel rest hrest c
+
+theorem translated_resetRequestBody_is_model (fuel : Nat) (rest : List (Bytes × List Bytes)) (r : Req) :
+    Gen.resetRequestBody fuel (GenEquiv.toGenReq rest r) =
+      .ok (GenEquiv.resetErrS (resetRequestBody r).2, GenEquiv.toGenReq rest (resetRequestBody r).1) :=
+  GenEquiv.resetRequestBody_eq fuel rest r
+
+/-- non-vacuity: a retry with last event ID `7` on a request with a body and `GetBody`: the body is the fresh one, the
+header is set -/
+example :
+    (Gen.Connection_resetRequest 1 (GenEquiv.gOf [] { req := { header := none, body := .orig, getBody := .present none }, lastEventID := [55], isRetry := true })).map
+      (fun r => (r.1, r.2.request.map fun q => (q.Body, q.gbCalls, q.Header))) =
+    .ok (none, some (.tag 1, 1, [(GenEquiv.leidKey, [[55]])])) := by
+  rfl
 
 end GoSSE.Props.C10
